@@ -11,6 +11,11 @@ t_hist = tmpl.pick(tmpl.history_case, LABELS)
 def templates(tier, seed):
     ts = []
     quick_ops = ["validate_eager", "validate_lazy", "statistics", "to_yaml", "example", "transform_rename"]
+    # two more schema shapes, validated repeatedly: a groupby check restricted by `groups`, a MultiIndex schema on data whose levels share a name
+    for variant in ("groupby",):  # (data whose MultiIndex levels share a name needs duplicate column labels in the frame model: not modelled)
+        for fx in ((), ("validate_eager", "validate_eager"), ("validate_lazy", "validate_eager"), ("validate_eager", "statistics")):
+            ts.append(Template(f"{variant}/k={len(fx) or 1}/N=2" + ("/" + ">".join(fx) if fx else ""), t_hist, (variant, len(fx) or 1, 2, ["validate_eager", "validate_lazy", "repr", "deepcopy"], fx),
+                               max_paths=30000, budget_s=100 if tier == "quick" else 1200))
     for variant in ("regex", "dtype", "plain"):
         for k in ((1, 2) if tier == "quick" else (1, 2, 3)):
             N = 1 if k > 1 else 2
